@@ -382,6 +382,8 @@ func run(repo string) (string, error) {
 	s += fmt.Sprintf("def packCompletesOnlyReply : Bool := %s\n", lb(pcalls >= 1 && pcalls == pguarded))
 	s += "/-- handleCallReq puts a deadline on the connection before it starts the handshake -/\n"
 	s += fmt.Sprintf("def handshakeDeadline : Bool := %s\n", lb(dlPos != 0 && dlPos < hsPos))
+	s += "/-- handleCallReq dials, and every dial in it is bounded: net.DialTimeout or a method of a `net.Dialer{…}` literal that sets Timeout/Deadline (not a bare net.Dial) -/\n"
+	s += fmt.Sprintf("def dialBounded : Bool := %s\n", lb(dials >= 1 && dials == dialsBounded))
 	s += "/-- the merge of the handshake's error channels (utils.MergeErrors) releases its WaitGroup on every exit of a forwarder -/\n"
 	s += fmt.Sprintf("def mergeErrorsReleases : Bool := %s\n", lb(releases))
 	s += "/-- decodeBytes returns an error for a Package without Anything before it dereferences it -/\n"
